@@ -12,6 +12,9 @@ from ..gfi.common import run_for
 def run(chk, prog):
     n, obs = run_for(chk, prog, "C13", ALL)
     chk.floor("obligations tagged C13", n, 38)
+    # SwitchTrace.get_choices is ChoiceMap.switch(idx, branch maps): the choice-map Switch node (build / filter / lookups) decides which branch's choices are visible
+    from ._share import take
+    take(chk, prog, "C17", lambda o: o["instance"].split("/")[0] in ("Switch.build", "Switch.filter", "Switch.get_inner_map", "Switch.get_value"), "choice-map Switch obligations (from C17)", 3)
     chk.explanation = "index-consistency, branch-family alignment and effect analysis for Switch / or_else / mix"
     for o in [o for o in obs.items if "C13" in o["props"]][:6]:
         chk.sample({"rule": o["rule"], "instance": o["instance"], "derived": o["derived"][:200], "expected": o["expected"][:160]})
